@@ -54,6 +54,19 @@ func e2Bin(mode string) (string, error) {
 	case "checkptr":
 		args = append(args, "-gcflags=all=-d=checkptr")
 	}
+	if RepoDir != "/repo" {
+		// tooling only: same module, rcproxy replaced by the scratch tree
+		gm, err := os.ReadFile(filepath.Join(harnessDir, "go.mod"))
+		if err != nil {
+			return "", err
+		}
+		alt := filepath.Join(TmpRoot(), "alt.mod")
+		os.WriteFile(alt, []byte(strings.Replace(string(gm), "=> /repo", "=> "+RepoDir, 1)), 0o644)
+		if gs, err := os.ReadFile(filepath.Join(harnessDir, "go.sum")); err == nil {
+			os.WriteFile(filepath.Join(TmpRoot(), "alt.sum"), gs, 0o644)
+		}
+		args = append(args, "-modfile="+alt)
+	}
 	args = append(args, "-o", out, "./cmd/e2")
 	cmd := exec.Command("go", args...)
 	cmd.Dir = harnessDir
